@@ -1,6 +1,6 @@
 (* Property C05 — serialization and persistence round trip.  Statements only; proofs in Proofs/. *)
 From PG Require Import Common.Tactics Model.Json Model.MemFS Model.MemSeq Proofs.JsonProofs Proofs.JsonStrProofs
-  Proofs.MemFSPaths Proofs.MemFSTree Proofs.MemFSProofs.
+  Proofs.MemFSPaths Proofs.MemFSTree Proofs.MemFSProofs Proofs.MemSeqProofs.
 
 (* Object form: pg.from_json (pg.to_json v) is v, for every value outside the reserved encodings. *)
 Theorem C05_json_roundtrip : forall q ct v, no_quirks q -> ct_ok ct = true -> ser_ok ct v = true ->
@@ -144,3 +144,11 @@ Theorem C05_lineseq_newline_record_refuted :
   seq_read (run_fs empty_fs h) p_em = FOk [[97%N]; [98%N]].
 Proof. exact newline_record_refuted. Qed.
 Print Assumptions C05_lineseq_newline_record_refuted.
+
+(* ---- in-memory record sequences --------------------------------------------------------------------- *)
+(* After any history of open / add / iterate / len / close over any handles and paths, a new reader of
+   path p sees exactly the records the heap-free specification appended to p: those added through
+   handles opened since the last truncating ('w') open of p, in order. *)
+Theorem C05_seq_append_read : forall h p, records_at (fst (srun s_empty h)) p = appended h p.
+Proof. exact seq_append_read. Qed.
+Print Assumptions C05_seq_append_read.
